@@ -147,20 +147,7 @@ def run_c13(ck, fb, fbd):
         ok = sized.get(tag) is True
         (ck.ok if ok else lambda r_, w, t: ck.violate(r_, w, t, "C13.assign:resize:%s" % tag))("C13.assign", asg.where, "operator= resizes the %s properties to the source's count (%s)" % (tag, "from %s" % other["n"] if sized.get(tag) else "missing" if tag not in sized else "NOT from the source"))
     # clone() of every storage instantiation
-    nclone = 0
-    for f in fb.fns.values():
-        if f.name == "clone" and f.cls and f.cls.startswith("OpenVolumeMesh::PropertyStorageT<") and f.has_cfg and "/src/OpenVolumeMesh/" in f.file:
-            nclone += 1
-            copy_from_this = False
-            for b, i, x in f.nodes(("call", "ctor")):
-                if x.get("pn", "").startswith("std::make_shared") or x.get("k") == "ctor":
-                    args = f.resolve(x.get("a", []))
-                    if x.get("pn", "").startswith("std::make_shared") and len(x.get("a", [])) == 1 and estr(args).strip("()") in ("*this", "this"):
-                        copy_from_this = True
-            detached = any(x.get("pn", "").endswith("::set_tracker") and estr(f.resolve(x.get("a", []))) in ("nullptr", "None", "") or (x.get("pn", "").endswith("::set_tracker") and unwrap(f.resolve(x["a"][0])).get("t") == "nullptr") for b, i, x in f.nodes(("call",)))
-            ok = copy_from_this and detached
-            (ck.ok if ok else lambda r_, w, t: ck.violate(r_, w, t, "C13.storage:clone"))("C13.storage", f.where, "%s::clone copy-constructs from *this and detaches the copy" % f.cls.replace("OpenVolumeMesh::", "")[:50])
-    ck.floor("storage_clone_instantiations", nclone, 5)
+    clone_rule(ck, fb)
     # GeometryKernel copy ops
     ngk = 0
     for f in fb.fns.values():
@@ -181,6 +168,24 @@ def run_c13(ck, fb, fbd):
         if f.cls and f.cls.startswith("OpenVolumeMesh::detail::Tracker<") and f.has_cfg and (f.d.get("copy_ctor") or f.d.get("copy_assign")):
             reads = [x for b, i, x in f.nodes(("mem",)) if x.get("f") == "tracked_" and unwrap(x.get("b")).get("k") != "this"]
             (ck.ok if not reads else lambda r_, w, t: ck.violate(r_, w, t, "C13.storage:tracker"))("C13.storage", f.where, "%s never reads the source's tracked set" % ("Tracker copy constructor" if f.d.get("copy_ctor") else "Tracker copy assignment"))
+
+
+def clone_rule(ck, fb, rule="C13.storage"):
+    """PropertyStorageT::clone (the copy path of meshes): copy-construct from *this - flags included - and detach"""
+    nclone = 0
+    for f in fb.fns.values():
+        if f.name == "clone" and f.cls and f.cls.startswith("OpenVolumeMesh::PropertyStorageT<") and f.has_cfg and "/src/OpenVolumeMesh/" in f.file:
+            nclone += 1
+            copy_from_this = False
+            for b, i, x in f.nodes(("call", "ctor")):
+                if x.get("pn", "").startswith("std::make_shared") or x.get("k") == "ctor":
+                    args = f.resolve(x.get("a", []))
+                    if x.get("pn", "").startswith("std::make_shared") and len(x.get("a", [])) == 1 and estr(args).strip("()") in ("*this", "this"):
+                        copy_from_this = True
+            detached = any(x.get("pn", "").endswith("::set_tracker") and estr(f.resolve(x.get("a", []))) in ("nullptr", "None", "") or (x.get("pn", "").endswith("::set_tracker") and unwrap(f.resolve(x["a"][0])).get("t") == "nullptr") for b, i, x in f.nodes(("call",)))
+            ok = copy_from_this and detached
+            (ck.ok if ok else lambda r_, w, t: ck.violate(r_, w, t, "%s:clone" % rule))(rule, f.where, "%s::clone copy-constructs from *this and detaches the copy" % f.cls.replace("OpenVolumeMesh::", "")[:50])
+    ck.floor("storage_clone_instantiations", nclone, 5)
 
 
 ENTITY_WORDS = {"vertex": "Vertex", "edge": "Edge", "halfedge": "HalfEdge", "face": "Face", "halfface": "HalfFace", "cell": "Cell", "mesh": "Mesh"}
@@ -239,6 +244,27 @@ def flag_writer_rule(ck, fb):
             ok = f.name == want or f.d.get("kind") == "ctor"
             (ck.ok if ok else lambda r_, w, t: ck.violate(r_, w, t, "C14.flagsync:writer:%s:%s" % (f.name, fld)))("C14.flagsync", f.loc(x), "PropertyStorageBase::%s is assigned in %s (only %s and the constructors may)" % (fld, f.name, want))
     ck.floor("storage_flag_writers", n, 2)
+
+
+def attached_rule(ck, fb):
+    """handle-side observer: 'if (prop)' asks whether the storage is still attached to a mesh"""
+    ck.rule("C14.attached", "PropertyStoragePtr::operator bool() forwards to the storage's own operator bool (Tracked::has_tracker()): a handle that outlives its mesh reports being detached; comparing the shared_ptr with nullptr instead would stay true forever")
+    n = 0
+    seen = set()
+    for f in fb.fns.values():
+        if not (f.has_cfg and f.cls and f.cls.startswith("OpenVolumeMesh::PropertyStoragePtr<") and f.name == "operator bool") or f.where in seen:
+            continue
+        seen.add(f.where)
+        n += 1
+        rets = [x for b, i, x in f.tops() if x.get("k") == "ret"]
+        ok = len(rets) == 1 and any(isinstance(y, dict) and y.get("k") == "call" and y.get("pn", "").endswith("PropertyStorageBase::operator bool") for y in walk(f.resolve(rets[0].get("x"))))
+        (ck.ok if ok else lambda r_, w, t: ck.violate(r_, w, t, "C14.attached"))("C14.attached", f.where, "PropertyStoragePtr::operator bool() returns the storage's attached state (%s)" % estr(f.resolve(rets[0].get("x")))[:60] if rets else "?")
+    base = [f for f in fb.fns.values() if f.has_cfg and f.cls == PSB and f.name == "operator bool"]
+    for f in base[:1]:
+        rets = [x for b, i, x in f.tops() if x.get("k") == "ret"]
+        ok = len(rets) == 1 and "has_tracker()" in estr(f.resolve(rets[0].get("x")))
+        (ck.ok if ok else lambda r_, w, t: ck.violate(r_, w, t, "C14.attached:base"))("C14.attached", f.where, "PropertyStorageBase::operator bool() is Tracked::has_tracker()")
+    ck.floor("handle_bool_conversions", n + len(base[:1]), 2)
 
 
 def selfguard_rule(ck, fb):
@@ -440,6 +466,10 @@ def run_c14(ck, fb, fbd):
     clear_props_rule(ck, fb)
     flag_writer_rule(ck, fb)
     tag_rule(ck, fb)
+    # a cloned storage has to carry the persistent/shared flags of its source: the copy path inserts it into the target's
+    # persistent set without touching the flag (shared with C13)
+    clone_rule(ck, fb, "C14.flagsync")
+    attached_rule(ck, fb)
     # ---- tracking protocol
     ntr = 0
     writers = {}
@@ -462,7 +492,8 @@ def run_c14(ck, fb, fbd):
     allowed = {"set_tracker", "remove", "tracker_removed"}
     extra = sorted(k for k in writers if k not in allowed)
     (ck.ok if not extra else lambda r_, w_, t: ck.violate(r_, w_, t, "C14.tracking:writers"))("C14.tracking", "Tracking.hh", "tracker_ is assigned only in %s (found also: %s)" % (sorted(allowed), extra))
-    ck.floor("tracked_functions", ntr, 8)
+    if ntr < 8:
+        ck.cannot_judge("C14: only %d member functions of detail::Tracked<> are instantiated (confirmed: 8): the tracking protocol rules see less than they were audited against" % ntr)
     for f in fb.fns.values():
         if f.cls and f.cls.startswith("OpenVolumeMesh::detail::Tracker<") and f.kind == "dtor" and f.has_cfg and not f.d.get("implicit"):
             ok = any(x.get("pn", "").endswith("::tracker_removed") for b, i, x in f.nodes(("call",)))
